@@ -23,7 +23,7 @@
 (* Invariants are the postconditions of the property, stated per name      *)
 (* through the relation FinalOfRow, not through the pipeline's operators.  *)
 (***************************************************************************)
-EXTENDS ConvertCore, SequencesExt
+EXTENDS ConvertCore
 
 CONSTANTS ModelVersions,     \* set of <<a, b, c>>
           Underscores,       \* subset of BOOLEAN
@@ -38,57 +38,67 @@ vars == <<sc, pc, vi, cur, name, pars, hits>>
 
 ---------------------------------------------------------------------------
 (* scenarios *)
-SoundRows(i) == {j \in 1..Len(RowsOf[i]) : ~RowsOf[i][j].oldnone
-                                           /\ RowsOf[i][j].old \notin DefectiveOldOf[i]}
+SoundRowSeq(i) ==
+    SelectSeq([j \in 1..Len(RowsOf[i]) |-> j],
+              LAMBDA j : ~RowsOf[i][j].oldnone /\ RowsOf[i][j].old \notin DefectiveOldOf[i])
 RowDotsFor(i, j) ==
     LET f == FinalOf[i][j]
         pd == f.base # "" /\ f.model # "" /\ f.base \in PdIdsOf[f.model]
-    IN [val |-> {""}, lim |-> LimDots, pd |-> IF pd THEN PdDots ELSE {}]
+    IN LimDots \cup (IF pd THEN PdDots ELSE {})
 Item(i, j, d) == [key |-> RowsOf[i][j].old \o d, dot |-> d, row |-> j]
 PlainItem(n) == [key |-> n, dot |-> "", row |-> 0]
 \* scale / background under their own name when the table does not map them
 PlainNames(i) == {n \in {"scale", "background"} : ~HasNew(RowsOf[i], n)
                                                   /\ \A j \in 1..Len(RowsOf[i]) : RowsOf[i][j].old # n}
-ValueItems(i) == {Item(i, j, "") : j \in SoundRows(i)}
-AttrItems(i, j) == LET D == RowDotsFor(i, j) IN {Item(i, j, d) : d \in D.lim \cup D.pd}
+ValueItems(i) == {Item(i, j, "") : j \in SeqSet(SoundRowSeq(i))}
+AttrItems(i, j) == {Item(i, j, d) : d \in RowDotsFor(i, j)}
+AllAttrItems(i) == UNION {AttrItems(i, j) : j \in SeqSet(SoundRowSeq(i))}
 ExtraItems(i) == {PlainItem(n) : n \in PlainNames(i) \cup HandInputs(Entries[i].new)}
-BaseOf(i) ==
-    LET S(cls, items) == [eid |-> i, cls |-> cls, items |-> items]
-    IN  (IF "empty" \in ClassSet THEN {S("empty", {})} ELSE {})
-        \cup (IF "single" \in ClassSet THEN {S("single", {Item(i, j, "")}) : j \in SoundRows(i)} ELSE {})
-        \cup (IF "singleAttrs" \in ClassSet
-              THEN {S("singleAttrs", {Item(i, j, "")} \cup AttrItems(i, j)) : j \in SoundRows(i)} ELSE {})
-        \cup (IF "values" \in ClassSet THEN {S("values", ValueItems(i))} ELSE {})
-        \cup (IF "all" \in ClassSet
-              THEN {S("all", ValueItems(i) \cup UNION {AttrItems(i, j) : j \in SoundRows(i)})} ELSE {})
-        \cup (IF "full" \in ClassSet
-              THEN {S("full", ValueItems(i) \cup UNION {AttrItems(i, j) : j \in SoundRows(i)}
-                              \cup ExtraItems(i))} ELSE {})
-        \cup (IF "full" \in ClassSet /\ ExtraItems(i) # {}
-              THEN {S("valuesExtra", ValueItems(i) \cup ExtraItems(i))} ELSE {})
-BaseScenarios == UNION {BaseOf(i) : i \in {k \in 1..NE : EntryModel[k] # ""}}
-Scenarios == {[base |-> b, us |-> u, mv |-> m] : b \in BaseScenarios, u \in Underscores, m \in ModelVersions}
+\* the parameter sets of entry i, as a sequence of [eid, cls, items]
+BaseSeqOf(i) ==
+    LET S(cls, items) == [eid |-> i, cls |-> cls, items |-> Force(items)]
+        SR == SoundRowSeq(i)
+        One(cls, set) == IF cls \in ClassSet THEN <<S(cls, set)>> ELSE <<>>
+    IN  One("empty", {})
+        \o (IF "single" \in ClassSet
+            THEN [k \in 1..Len(SR) |-> S("single", {Item(i, SR[k], "")})] ELSE <<>>)
+        \o (IF "singleAttrs" \in ClassSet
+            THEN [k \in 1..Len(SR) |-> S("singleAttrs", {Item(i, SR[k], "")} \cup AttrItems(i, SR[k]))]
+            ELSE <<>>)
+        \o One("values", ValueItems(i))
+        \o One("all", ValueItems(i) \cup AllAttrItems(i))
+        \o One("full", ValueItems(i) \cup AllAttrItems(i) \cup ExtraItems(i))
+        \o (IF "full" \in ClassSet /\ ExtraItems(i) # {}
+            THEN <<S("valuesExtra", ValueItems(i) \cup ExtraItems(i))>> ELSE <<>>)
+RECURSIVE Flatten(_)
+Flatten(i) == IF i > NE THEN <<>>
+              ELSE (IF EntryModel[i] = "" THEN <<>> ELSE BaseSeqOf(i)) \o Flatten(i + 1)
+BaseSeq == Table(Flatten(1))
+NBase == Len(BaseSeq)
+\* a scenario: index into BaseSeq, use_underscore, model_version
+Scenarios == {[b |-> b, us |-> u, mv |-> m] : b \in 1..NBase, u \in Underscores, m \in ModelVersions}
+ScEntry(s) == BaseSeq[s.b].eid
+ScItems(s) == BaseSeq[s.b].items
 
 \* export for the replay on the implementation (and of the table-level verdicts)
 ExportValue ==
-    LET BS == SetToSeq(BaseScenarios) IN
-    [base |-> [k \in 1..Len(BS) |->
-                 LET b == BS[k] IN
+    [base |-> [k \in 1..NBase |->
+                 LET b == BaseSeq[k] IN
                  [eid |-> b.eid, cls |-> b.cls, name |-> Entries[b.eid].old,
                   model |-> Entries[b.eid].new, version |-> VText(Entries[b.eid].version),
-                  items |-> SetToSeq({[key |-> it.key, dot |-> it.dot] : it \in b.items})]],
-     us |-> SetToSeq(Underscores), mv |-> SetToSeq(ModelVersions),
-     defects |-> SetToSeq(TableDefects)]
+                  items |-> {[key |-> it.key, dot |-> it.dot] : it \in b.items}]],
+     us |-> Underscores, mv |-> ModelVersions, defects |-> TableDefects]
 ASSUME IF "C20_SCEN" \in DOMAIN IOEnv /\ IOEnv.C20_SCEN # ""
        THEN JsonSerialize(IOEnv.C20_SCEN, ExportValue) ELSE TRUE
 ASSUME \A d \in TableDefects : PrintT(<<"TABLE-DEFECT", ToJson(d)>>)
+ASSUME PrintT(<<"SCENARIOS", NBase, Cardinality(Scenarios)>>)
 
 ---------------------------------------------------------------------------
-P0(s) == [k \in {it.key : it \in s.base.items} |-> Sym(k)]
+P0(s) == [k \in {it.key : it \in ScItems(s)} |-> Sym(k)]
 
 Init == /\ sc \in Scenarios
         /\ pc = "Target" /\ vi = 1 /\ cur = 0 /\ hits = <<>>
-        /\ name = Entries[sc.base.eid].old
+        /\ name = Entries[ScEntry(sc)].old
         /\ pars = P0(sc)
 
 Target ==
@@ -130,9 +140,9 @@ M0 == EntryModel[I0]
 H0 == IF Versions[Vi0] = V312 THEN HandModel(Entries[I0].new, P0(sc)) ELSE P0(sc)
 
 Report(cls, nm) ==
-    PrintT(<<"DESIGN-DEFECT", ToJson([class |-> cls, version |-> VText(Entries[sc.base.eid].version),
-                                      model |-> Entries[sc.base.eid].new, name |-> nm,
-                                      cls |-> sc.base.cls, us |-> sc.us, mv |-> VText(sc.mv)])>>)
+    PrintT(<<"DESIGN-DEFECT", ToJson([class |-> cls, version |-> VText(Entries[ScEntry(sc)].version),
+                                      model |-> Entries[ScEntry(sc)].new, name |-> nm,
+                                      cls |-> BaseSeq[sc.b].cls, us |-> sc.us, mv |-> VText(sc.mv)])>>)
 Holds(cls, Bad) == Bad = {} \/ (Report(cls, CHOOSE x \in Bad : TRUE) /\ FALSE)
 
 TypeOK == /\ pc \in SeqSet(Stages) \cup {"Target", "Done"}
@@ -140,7 +150,7 @@ TypeOK == /\ pc \in SeqSet(Stages) \cup {"Target", "Done"}
           /\ \A k \in DOMAIN pars : pars[k].t \in {"sym", "f", "opaque"}
 
 \* a set saved by a version newer than every table is returned as it came
-Identity == Done /\ ~Applied => name = Entries[sc.base.eid].old /\ pars = P0(sc)
+Identity == Done /\ ~Applied => name = Entries[ScEntry(sc)].old /\ pars = P0(sc)
 
 NameOfCurrentModel == Done /\ Applied => Holds("NameOfCurrentModel", {name} \ Current)
 
@@ -156,7 +166,7 @@ DeclVal(it) ==
     LET mid == IF it.row = 0 THEN it.key ELSE RowsOf[I0][it.row].new
     IN IF Rescales(Vi0, M0) /\ it.dot = "" /\ mid \in ScaledKeys(M0)
        THEN MulV(H0[it.key], "1000000.0") ELSE H0[it.key]
-Constrained == {it \in sc.base.items : it.key \in DOMAIN H0 /\ H0[it.key].t # "opaque"}
+Constrained == {it \in ScItems(sc) : it.key \in DOMAIN H0 /\ H0[it.key].t # "opaque"}
 ValuesCarried ==
     Done /\ Applied =>
         Holds("ValuesCarried",
@@ -175,6 +185,6 @@ DefaultsHold ==
               {n \in {"scale", "background"} :
                   \/ n \notin DOMAIN pars
                   \/ /\ n \notin DOMAIN H0
-                     /\ \A it \in sc.base.items : DeclKey(it) # n
+                     /\ \A it \in ScItems(sc) : DeclKey(it) # n
                      /\ ~ValEq(pars[n], NumV(IF n = "scale" THEN "1.0" ELSE "0.0"))})
 =============================================================================
